@@ -75,8 +75,11 @@ package sample
 // starting a sampler may do anything to that sampler, but it does not rewrite the factory's table of configured goals
 //@ assume sample.Sampler.Start havocheap
 //@   ensures[configured-goals-untouched@C13] forall f *SamplerFactory :: f != nil ==> f.goalThroughputConfigs == old(f.goalThroughputConfigs)
+// lastPrefix(s): the key prefix the most recent sampler was created under (call log)
+//@ ghost lastPrefix(ref) string
 //@ contract sample.(*SamplerFactory).createSampler props C13 havoc
 //@   requires s != nil
+//@   ghostupdate[created-under@C12] lastPrefix(s) :: lastPrefix(s) == keyPrefix
 //@   ensures[goals-scaled-after-creation] result != nil ==> goalsScaled(s)
 // the goal remembered for rescaling is the CONFIGURED goal - never the one currently in force on the shared
 // dynsampler, which may already be divided by the cluster size (a second worker creating the same sampler would
@@ -84,6 +87,15 @@ package sample
 //@   ensures[the-goal-remembered-is-the-configured-one-total] (result != nil && isType(c, *config.TotalThroughputSamplerConfig) && old(asPtr(c, *config.TotalThroughputSamplerConfig).UseClusterSize)) ==> s.goalThroughputConfigs[old(makeDynsamplerKey(keyPrefix, "totalthroughput", toInt(asPtr(c, *config.TotalThroughputSamplerConfig).GoalThroughputPerSec), asPtr(c, *config.TotalThroughputSamplerConfig).FieldList))] == old(asPtr(c, *config.TotalThroughputSamplerConfig).GoalThroughputPerSec)
 //@   ensures[the-goal-remembered-is-the-configured-one-ema] (result != nil && isType(c, *config.EMAThroughputSamplerConfig) && old(asPtr(c, *config.EMAThroughputSamplerConfig).UseClusterSize)) ==> s.goalThroughputConfigs[old(makeDynsamplerKey(keyPrefix, "emathroughput", toInt(asPtr(c, *config.EMAThroughputSamplerConfig).GoalThroughputPerSec), asPtr(c, *config.EMAThroughputSamplerConfig).FieldList))] == old(asPtr(c, *config.EMAThroughputSamplerConfig).GoalThroughputPerSec)
 //@   ensures[the-goal-remembered-is-the-configured-one-windowed] (result != nil && isType(c, *config.WindowedThroughputSamplerConfig) && old(asPtr(c, *config.WindowedThroughputSamplerConfig).UseClusterSize)) ==> s.goalThroughputConfigs[old(makeDynsamplerKey(keyPrefix, "windowedthroughput", toInt(asPtr(c, *config.WindowedThroughputSamplerConfig).GoalThroughputPerSec), asPtr(c, *config.WindowedThroughputSamplerConfig).FieldList))] == old(asPtr(c, *config.WindowedThroughputSamplerConfig).GoalThroughputPerSec)
+
+// C12 (isolation between destinations): the sampler for a destination is created under that destination's own key -
+// the key is the prefix of every shared dynsampler's registry key, so two environments that merely fall back to the
+// same (default) definition still get separate state.
+//@ assume config.Config.GetSamplerConfigForDestName
+//@ contract sample.(*SamplerFactory).GetSamplerImplementationForKey#isolation props C12 havoc
+//@   assert only none
+//@   requires s != nil && s.Config != nil
+//@   ensures[created-under-the-destination-s-own-key] lastPrefix(s) == samplerKey
 
 // ---- C12: sampler state is shared across workers and isolated between definitions.
 // Ghost: the registry key under which the most recent lookup was made.
